@@ -41,6 +41,7 @@ pub fn base_cfg(prop: &'static str, label: String, cb: usize, hb: usize, events:
         short_sink: false,
         poison: false,
         prefilled: vec![],
+        deprecated_ctor: false,
     }
 }
 
@@ -304,4 +305,273 @@ pub fn c06(rep: &mut Report, tier: &str, seed: u64, prop: &'static str) {
     let (cb, hb) = if tier == "quick" { (2, 3) } else { (3, 4) };
     let cfg = base_cfg(prop, format!("screen byte-granular cb={} hb={} raw", cb, hb), cb, hb, alphabet, mon.clone());
     run_raw(rep, cfg, &caps, seed);
+}
+
+// ------------------------------------------------------------------ C03
+
+fn rep_ev(e: Ev, n: usize) -> Vec<Ev> {
+    std::iter::repeat(e).take(n).collect()
+}
+
+/// pre-filled starting states for large buffers (closure is out of reach there)
+fn prefilled_states(cb: usize, hb: usize) -> Vec<(String, Vec<Ev>)> {
+    let mut v: Vec<(String, Vec<Ev>)> = vec![];
+    for delta in 0..=3usize {
+        if cb >= delta {
+            v.push((format!("line = 'a' x (cb-{})", delta), rep_ev(ch('a'), cb - delta)));
+        }
+    }
+    if cb >= 4 {
+        // multi-byte characters straddling the end of the buffer
+        for delta in 0..=3usize {
+            let mut evs = rep_ev(ch('𝄞'), (cb - delta) / 4);
+            evs.extend(rep_ev(ch('a'), (cb - delta) % 4));
+            evs.push(k(Key::Left));
+            v.push((format!("line = 4-byte chars up to cb-{}, cursor inside", delta), evs));
+        }
+        let mut evs = rep_ev(ch('é'), cb / 2);
+        evs.extend(rep_ev(k(Key::Left), cb / 4));
+        v.push(("line = 2-byte chars filling cb, cursor in the middle".to_string(), evs));
+    }
+    if hb >= 2 && cb >= 1 {
+        // history full of one-character entries, navigation in progress
+        let mut evs = vec![];
+        let n = hb / 2;
+        for i in 0..n.min(40) {
+            evs.push(ch(if i % 2 == 0 { 'a' } else { 'é' }));
+            if i % 3 == 2 {
+                evs.push(ch('a'));
+            }
+            evs.push(k(Key::Lf));
+        }
+        let mut nav = evs.clone();
+        nav.push(k(Key::Up));
+        nav.push(k(Key::Up));
+        v.push(("history of many short entries".to_string(), evs));
+        v.push(("history of many short entries, navigating".to_string(), nav));
+        // one entry filling history to capacity - delta
+        for delta in 1..=3usize {
+            if hb > delta && cb >= hb - delta {
+                let mut e2 = rep_ev(ch('a'), hb - delta);
+                e2.push(k(Key::Lf));
+                e2.push(k(Key::Up));
+                v.push((format!("single entry of hb-{} bytes recalled", delta), e2));
+            }
+        }
+        // two entries, second evicts first on next push
+        if cb >= 2 {
+            let l1 = (hb / 2).min(cb).max(1);
+            let mut e3 = rep_ev(ch('a'), l1.saturating_sub(1).max(1));
+            e3.push(k(Key::Lf));
+            e3.extend(rep_ev(ch('é'), (l1 / 2).max(1)));
+            e3.push(k(Key::Lf));
+            e3.push(k(Key::Up));
+            e3.push(k(Key::Up));
+            v.push(("two entries, at the oldest".to_string(), e3));
+        }
+    }
+    v
+}
+
+pub fn c03(rep: &mut Report, tier: &str, seed: u64) {
+    let quick = tier == "quick";
+    let caps = caps(tier);
+    let mon = Mon { invariants: true, ..Default::default() };
+    // (1a) wide alphabet incl. API calls, small buffers, to closure
+    let wide = vec![
+        ch('a'),
+        ch('é'),
+        ch('𝄞'),
+        ch(' '),
+        ch('"'),
+        ch('\\'),
+        ch('-'),
+        k(Key::Bs),
+        k(Key::Left),
+        k(Key::Right),
+        k(Key::Up),
+        k(Key::Down),
+        k(Key::Tab),
+        k(Key::Lf),
+        k(Key::Cr),
+        kh(Key::Lf, HMode::Write("o\n")),
+        wr(""),
+        wr("x"),
+        wr("x\n"),
+        Ev::SetPrompt("é> "),
+        Ev::SetPrompt(""),
+    ];
+    let small: Vec<(usize, usize)> = if quick {
+        vec![(0, 0), (0, 1), (1, 0), (1, 1), (1, 2), (2, 1), (2, 2), (2, 3), (3, 2)]
+    } else {
+        let mut v = vec![];
+        for cb in 0..=3 {
+            for hb in 0..=5 {
+                v.push((cb, hb));
+            }
+        }
+        v
+    };
+    for (cb, hb) in small {
+        let mut cfg = base_cfg("C03", format!("no-panic wide alphabet cb={} hb={} cmd4", cb, hb), cb, hb, wide.clone(), mon.clone());
+        cfg.poison = true;
+        run_cmd4(rep, cfg, &caps, seed);
+    }
+    // (1b) reduced alphabet, larger grid
+    let reduced = vec![ch('a'), ch('é'), ch(' '), k(Key::Bs), k(Key::Left), k(Key::Up), k(Key::Down), k(Key::Tab), k(Key::Lf)];
+    let grid: Vec<(usize, usize)> = if quick {
+        let mut v = vec![];
+        for cb in [0usize, 1, 2, 4] {
+            for hb in [0usize, 1, 2, 5] {
+                v.push((cb, hb));
+            }
+        }
+        v
+    } else {
+        let mut v = vec![];
+        for cb in 0..=5 {
+            for hb in 0..=7 {
+                v.push((cb, hb));
+            }
+        }
+        v
+    };
+    for (cb, hb) in grid {
+        let mut cfg = base_cfg("C03", format!("no-panic reduced alphabet cb={} hb={} cmd4", cb, hb), cb, hb, reduced.clone(), mon.clone());
+        cfg.poison = !quick || cb * hb <= 8;
+        run_cmd4(rep, cfg, &caps, seed);
+    }
+    // (2) raw bytes through the whole Cli
+    let raw_bytes: Vec<u8> = if quick {
+        vec![0x08, 0x09, 0x0A, 0x0D, 0x1B, b'[', b'A', b'a', b' ', 0x80, 0xBF, 0xC3, 0xE0, 0xED, 0xF0, 0xF4, 0xFF]
+    } else {
+        crate::e2::boundary_bytes()
+    };
+    let mut raw_alpha: Vec<Ev> = raw_bytes.into_iter().map(|b| k(Key::Raw(b))).collect();
+    raw_alpha.push(wr("x"));
+    let raw_cfgs: Vec<(usize, usize)> = if quick { vec![(2, 3)] } else { vec![(2, 3), (3, 4)] };
+    for (cb, hb) in raw_cfgs {
+        let cfg = base_cfg("C03", format!("no-panic raw bytes cb={} hb={} cmd4", cb, hb), cb, hb, raw_alpha.clone(), mon.clone());
+        run_cmd4(rep, cfg, &caps, seed);
+    }
+    // decoder closure over all byte values (shared with C02)
+    let m = crate::e2::AccModel { bytes: (0u8..=255).collect(), prop: "C03" };
+    run_model(rep, &m, &caps, seed);
+    // (3) large buffers: depth-bounded from the initial and from pre-filled states
+    let big: Vec<(usize, usize)> = vec![(8, 16), (16, 8), (32, 32), (64, 64), (64, 1), (1, 64), (0, 64), (64, 0), (5, 6), (7, 9)];
+    let big_alpha = vec![
+        ch('a'),
+        ch('é'),
+        ch('𝄞'),
+        ch(' '),
+        k(Key::Bs),
+        k(Key::Left),
+        k(Key::Right),
+        k(Key::Up),
+        k(Key::Down),
+        k(Key::Tab),
+        k(Key::Lf),
+        wr("x"),
+        Ev::SetPrompt("é> "),
+    ];
+    let mut dcaps = caps.clone();
+    dcaps.max_depth = if quick { 5 } else { 7 };
+    for (cb, hb) in big {
+        let mut cfg = base_cfg("C03", format!("no-panic large buffers cb={} hb={} cmd4 (depth-bounded, pre-filled starts)", cb, hb), cb, hb, big_alpha.clone(), mon.clone());
+        cfg.prefilled = prefilled_states(cb, hb);
+        cfg.poison = quick;
+        run_cmd4(rep, cfg, &dcaps, seed);
+    }
+    // (4) deprecated constructor
+    let mut cfg = base_cfg("C03", "no-panic deprecated Cli::new cb=2 hb=3 cmd4".to_string(), 2, 3, reduced.clone(), mon.clone());
+    cfg.deprecated_ctor = true;
+    run_cmd4(rep, cfg, &caps, seed);
+}
+
+// ------------------------------------------------------------------ C13
+
+pub fn c13(rep: &mut Report, tier: &str, seed: u64) {
+    let quick = tier == "quick";
+    let caps = caps(tier);
+    // (i) closure of the real Writer's state, every transition executed end to end
+    let pieces = crate::e_writer::all_pieces(if quick { 3 } else { 4 });
+    let m = crate::e_writer::WriterModel { pieces: pieces.clone(), contexts: crate::e_writer::contexts() };
+    let name = m.name();
+    run_model(rep, &m, &caps, seed);
+    rep.required.push((name.clone(), "write_executions".into()));
+    rep.required.push((name, "handler_executions".into()));
+    // (ii) every single call and a set of two-call scripts from every state of an editing session
+    let mut events = vec![ch('a'), ch('é'), ch(' '), k(Key::Bs), k(Key::Left), k(Key::Right), k(Key::Up), k(Key::Lf)];
+    let singles = crate::e_writer::all_pieces(2);
+    for p in &singles {
+        let sc = leak_script(vec![*p]);
+        events.push(Ev::Write(sc));
+        events.push(kh(Key::Lf, HMode::Script(sc)));
+    }
+    let two: Vec<(usize, usize)> = vec![(1, 0), (1, 5), (5, 0), (9, 13), (13, 1), (2, 2), (17, 0), (6, 21), (33, 8)];
+    for (a, b) in two {
+        if a < singles.len() && b < singles.len() {
+            let sc = leak_script(vec![singles[a], singles[b]]);
+            events.push(Ev::Write(sc));
+            events.push(kh(Key::Lf, HMode::Script(sc)));
+        }
+    }
+    let cfgs: Vec<(usize, usize)> = if quick { vec![(3, 4)] } else { vec![(3, 4), (4, 5)] };
+    for (cb, hb) in cfgs {
+        let cfg = base_cfg(
+            "C13",
+            format!("framing sessions cb={} hb={} raw: every output call x every editing state", cb, hb),
+            cb,
+            hb,
+            events.clone(),
+            Mon { framing: true, dispatch: true, term: true, invariants: true, ..Default::default() },
+        );
+        let name = cfg.label.clone();
+        run_raw(rep, cfg, &caps, seed);
+        rep.required.push((name, "framing_write".into()));
+    }
+}
+
+// ------------------------------------------------------------------ C14
+
+pub fn c14(rep: &mut Report, tier: &str, seed: u64) {
+    use crate::e5::FaultModel;
+    let quick = tier == "quick";
+    let caps = caps(tier);
+    let mon = Mon { dispatch: true, invariants: true, ..Default::default() };
+    let events = vec![
+        ch('a'),
+        ch(' '),
+        ch('"'),
+        ch('-'),
+        ch('h'),
+        k(Key::Bs),
+        k(Key::Left),
+        k(Key::Up),
+        k(Key::Tab),
+        kh(Key::Lf, HMode::Write("o")),
+        kh(Key::Lf, HMode::ParseErr),
+        kh(Key::Lf, HMode::Prompt("é> ")),
+        wr("x"),
+        Ev::SetPrompt("$ "),
+    ];
+    let events: Vec<Ev> = if quick { events.into_iter().filter(|e| *e != ch('"')).collect() } else { events };
+    let cfgs: Vec<(usize, usize, usize)> = if quick { vec![(4, 2, 0)] } else { vec![(4, 3, 3), (5, 4, 4), (6, 0, 0)] };
+    for (cb, hb, hb_grp) in cfgs {
+        // plain enum
+        let mut cfg = base_cfg("C14", format!("fault sessions cb={} hb={} plain enum", cb, hb), cb, hb, events.clone(), mon.clone());
+        cfg.names = plain_a_names();
+        let m = FaultModel { inner: SessModel::<PlainA<'static>>::new(cfg) };
+        let name = m.name();
+        run_model(rep, &m, &caps, seed);
+        rep.required.push((name.clone(), "faults_injected".into()));
+        rep.required.push((name, "fault_in_call_checked".into()));
+        // group of two enums
+        let mut cfg = base_cfg("C14", format!("fault sessions cb={} hb={} command group", cb, hb_grp), cb, hb_grp, events.clone(), mon.clone());
+        cfg.names = grp_names();
+        let m = FaultModel { inner: SessModel::<Grp<'static>>::new(cfg) };
+        let name = m.name();
+        run_model(rep, &m, &caps, seed);
+        rep.required.push((name, "faults_injected".into()));
+    }
 }
